@@ -13,11 +13,12 @@ PROPS = ["C08/Props.v"]
 CLAUSE = {1: "missing-call", 2: "call-for-unreachable", 3: "called-twice", 4: "event-identity",
           5: "quiet-link-called", 6: "mutation-raised", 7: "call-without-change"}
 FIELD = {0: "value", 1: "f", 2: "g", 3: "kids", 4: "m", 5: "s", 6: "list_items", 7: "dict_items", 8: "set_items",
-         10: "trait_added", 11: "trait_modified", 12: "x1", 13: "x2", 14: "groups", 17: "groups_items"}
+         10: "trait_added", 11: "trait_modified", 12: "x1", 13: "x2", 14: "groups", 17: "groups_items",
+         15: "kidsI", 18: "kidsI_items"}
 # FilteredTraitObserver nodes (DESIGN 6 C08: "filters are modelled as a set of matching names supplied by the
 # harness"): the model node carries the list of trait names the filter matches on class N; the dynamic traits
 # 12, 13 exist on an object only after add_trait (the model gates every name by trait existence)
-FILTERS = {"anytrait": [0, 1, 2, 3, 4, 5, 10, 11, 12, 13, 14],   # expression.anytrait(): leaf only (mixed value types)
+FILTERS = {"anytrait": [0, 1, 2, 3, 4, 5, 10, 11, 12, 13, 14, 15],   # expression.anytrait(): leaf only (mixed value types)
            "tag": [1, 2, 13],                        # expression.metadata("tag"): f, g (and the dynamic x2) carry tag=True
            "tagc": [3],                              # expression.metadata("tagc"): the List trait kids carries tagc=True
            "match_fg": [1, 2],                       # expression.match(lambda name, trait: name in ("f", "g"))
@@ -51,7 +52,7 @@ def expand(g, dyn=False):
         return [x for c in children for x in expand(c)]
     cs = sorted((x for c in children for x in expand(c)), key=lambda c: json.dumps(c))
     names = FILTERS[head] if isinstance(head, str) else [head]
-    extra = isinstance(head, str) or head not in (6, 7, 8, 17)
+    extra = isinstance(head, str) or head not in (6, 7, 8, 17, 18)
     optional = True if isinstance(head, str) else bool(_o)       # a filter never complains about a missing trait
     return [[list(names), bool(notify), extra, optional, cs]]
 
@@ -216,7 +217,7 @@ class Shadow:
     def __init__(self, npool):
         self.npool = npool
         self.ref = {(o, f): None for o in range(npool) for f in (1, 2)}
-        self.cont = {(o, f): None for o in range(npool) for f in (3, 4, 5, 14)}
+        self.cont = {(o, f): None for o in range(npool) for f in (3, 4, 5, 14, 15)}
         self.items = {}      # cid -> list of oid (list, set) / list of (key, oid) (dict)
         self.kind = {}
         self.owner = {}      # cid -> owner object (None when detached)
@@ -266,13 +267,13 @@ def gen_graph(rnd, depth, ctx=None):
     if depth <= 1:
         if rnd.random() < 0.12:
             return [rnd.choice(list(FILTERS)), notify, False, []]
-        f = rnd.choice([0, 0, 0, 1, 3, 4, 5])
-        if f in (3, 4, 5) and rnd.random() < 0.6:
+        f = rnd.choice([0, 0, 0, 1, 3, 4, 5, 15])
+        if f in (3, 4, 5, 15) and rnd.random() < 0.6:
             return [f, notify, optional, [[f + 3, rnd.random() < 0.8, rnd.random() < 0.3, []]]]
         return [f, notify, optional, []]
     if rnd.random() < 0.08:
         return [rnd.choice(LEAF_FILTERS), notify, False, []]
-    f = rnd.choice([1, 1, 2, 3, 3, 4, 5, 0])
+    f = rnd.choice([1, 1, 2, 3, 3, 4, 5, 0, 15])
     if f == 0:
         return [0, notify, optional, []]
     if f in (1, 2) and rnd.random() < 0.3:
@@ -397,14 +398,14 @@ def gen_case(rnd, ctx, maxmut, cyclic=False):
                 return ["SetRef", o, f, None, "del"]            # del o.f
             return ["SetRef", o, f, v]
         if r < 0.42:
-            f = rnd.choice([3, 3, 4, 5])
+            f = rnd.choice([3, 3, 4, 5, 15])      # 15: a List in identity comparison mode
             if rnd.random() < 0.25 and sh.cont[(o, f)] is not None:
                 cur = sh.items[sh.cont[(o, f)]]
                 items = list(cur)                       # an equal container is re-assigned
             elif f == 4:
                 keys = rnd.sample(["a", "b", "c"], rnd.randint(0, 3))
                 items = [[k, rnd.randrange(npool)] for k in keys]
-            elif f == 3:
+            elif f in (3, 15):
                 items = [rnd.randrange(npool) for _ in range(rnd.randint(0, 3))]
                 if items and rnd.random() < 0.3:
                     items.append(items[0])              # the same object twice
@@ -454,7 +455,7 @@ def gen_case(rnd, ctx, maxmut, cyclic=False):
             v = sh.values(c)[0]                         # an object that is already inside
         ok_v = own is None or not sh.reaches(v, own)
         n = len(cur)
-        if kind == 6:
+        if kind in (6, 18):
             meth = rnd.choice(["append", "append", "insert", "pop", "setitem", "delitem", "clear", "extend",
                                "remove", "setslice", "setslice", "delslice", "iadd", "reverse", "sort", "imul"])
             if meth in ("append",):
@@ -577,7 +578,19 @@ def gen_case(rnd, ctx, maxmut, cyclic=False):
                 args = []
                 del cur[:]
         else:
-            meth = rnd.choice(["add", "add", "discard", "remove", "clear"])
+            meth = rnd.choice(["add", "add", "discard", "remove", "clear", "symdiff", "symdiff"])
+            if meth == "symdiff":
+                # s ^= other / symmetric_difference_update: ONE event that both removes and adds members
+                i = rnd.randrange(n) if n else 0
+                k = rnd.randint(1, n - i) if n else 0
+                gone = cur[i:i + k]
+                vs = sorted(set(x for x in (rnd.randrange(npool) for _ in range(rnd.randint(1, 2))) if x not in cur))
+                if not gone or not vs or (own is not None and any(sh.reaches(x, own) for x in vs)):
+                    return None
+                sp = [i, k, vs]
+                args = [gone + vs, rnd.random() < 0.5]
+                sh.items[c] = cur[:i] + vs + cur[i + k:]
+                return ["Cop", c, kind, meth, args, sp]
             if meth == "add":
                 if not ok_v:
                     return None
@@ -630,7 +643,7 @@ def gen_case(rnd, ctx, maxmut, cyclic=False):
                     budget[0] -= 1
                 for c in children:
                     build_path(c, v, budget)
-            elif f in (3, 4, 5):
+            elif f in (3, 4, 5, 15):
                 c_id = sh.cont[(x, f)]
                 if c_id is None or not sh.items[c_id]:
                     cand = [y for y in range(npool) if not sh.reaches(y, x)]
@@ -802,6 +815,12 @@ def corpus():
         ["Observe", 0, 0, [1, True, False, [[12, True, False, []]]]],
         ["Observe", 1, 0, [1, True, False, [[0, True, False, []]]]]] + probes_for(3) + [
         ["SetRef", 0, 1, 2]] + probes_for(3)))
+    # a List trait in identity comparison mode: re-assigning an equal (distinct) list IS a change and is reported
+    kiI = [15, True, False, [[18, True, False, [[0, True, False, []]]]]]
+    cs.append(dict(npool=3, shape="acyclic", ops=[
+        ["SetCont", 0, 15, [1], False], ["Observe", 0, 0, kiI], ["SetCont", 0, 15, [1], False]] + probes_for(3) + [
+        ["SetCont", 0, 15, [], False], ["SetCont", 0, 15, [], False],
+        ["Cop", 6, 18, "append", [2], [0, 0, [2]]]] + probes_for(3)))
     # finding: del o.kids notifies twice, the new default list is hooked twice; once replaced it keeps calling
     ki = parse_named("kids.items")
     cs.append(dict(npool=3, shape="acyclic-del", name="del-container", ops=[
